@@ -2,6 +2,7 @@ package rules
 
 import (
 	"go/constant"
+	"strings"
 
 	"golang.org/x/tools/go/ssa"
 
@@ -136,8 +137,9 @@ func numberPredicates(c *core.Ctx, R string, report bool) map[string][3]bool {
 	return got
 }
 
-func c13pred(c *core.Ctx) {
-	const R = "C13.pred"
+func c13pred(c *core.Ctx) { c13predR(c, "C13.pred") }
+
+func c13predR(c *core.Ctx, R string) {
 	c.Rule(R, "Equal/GreaterThan/GreaterThanOrEqual/LessThan/LessThanOrEqual are the correct truth tables over Cmp in {-1,0,1}; Cmp = sign table over <n.neg, nn.neg, cmpAbs>: same sign -> cmpAbs (negated when negative), different signs -> -1/+1 which is only correct if a zero never carries a sign, so Scan must normalise negative zero (neg=false when no digits remain); `not` maps 1,-1,0 to -1,1,0 and nothing else reaches it")
 	c.Floor(R, 8)
 	numberPredicates(c, R, true)
@@ -241,7 +243,26 @@ func c13zero(c *core.Ctx, R string) {
 					if ifi, isIf := gb.Instrs[len(gb.Instrs)-1].(*ssa.If); isIf {
 						if cmpv, isB := ifi.Cond.(*ssa.BinOp); isB {
 							if isZeroConst(cmpv.X) || isZeroConst(cmpv.Y) {
-								return true
+								// the zero test must come after every digit-trimming step: a zero
+								// written with a fraction (-0.0) has digits left until the trailing
+								// zeros are trimmed
+								trimsBefore := 0
+								for _, tb := range f.Blocks {
+									for _, tin := range tb.Instrs {
+										if call, isC := tin.(*ssa.Call); isC {
+											if sc := call.Call.StaticCallee(); sc != nil && strings.HasPrefix(sc.Name(), "trim") {
+												if tb == gb || tb.Dominates(gb) {
+													trimsBefore++
+												} else {
+													trimsBefore = -100
+												}
+											}
+										}
+									}
+								}
+								if trimsBefore >= 0 {
+									return true
+								}
 							}
 						}
 					}
